@@ -9,10 +9,12 @@ package epochkg
 //@ pred kgKeysNonNil(kg) := forall k Str :: has(kg.SecretKeys, k) ==> kg.SecretKeys[k] != nil
 //@ pred kgSharesNonNil(kg) := forall k Str, i :: has(kg.SecretShares, k) && 0 <= i && i < len(kg.SecretShares[k]) ==> kg.SecretShares[k][i] != nil
 //@ pred kgBelowThreshold(kg) := forall k Str :: has(kg.SecretShares, k) ==> (len(kg.SecretShares[k]) >= 1 && len(kg.SecretShares[k]) < kg.Threshold)
-//@ pred wfKG(kg) := kgBase(kg) && kgKeysNonNil(kg) && kgSharesNonNil(kg) && kgBelowThreshold(kg)
+//@ pred kgDistinct(kg) := forall k Str, i, j :: has(kg.SecretShares, k) && 0 <= i && i < j && j < len(kg.SecretShares[k]) ==> kg.SecretShares[k][i].Sender != kg.SecretShares[k][j].Sender
+//@ pred kgShareFields(kg) := len(kg.PublicKeyShares) <= 1048576 && (forall k Str, i :: has(kg.SecretShares, k) && 0 <= i && i < len(kg.SecretShares[k]) ==> (kg.SecretShares[k][i].Share != nil && kg.SecretShares[k][i].Sender < len(kg.PublicKeyShares)))
+//@ pred wfKG(kg) := kgBase(kg) && kgKeysNonNil(kg) && kgSharesNonNil(kg) && kgBelowThreshold(kg) && kgDistinct(kg) && kgShareFields(kg)
 //@
 //@ func NewEpochKG
-//@   requires puredkgResult != nil && puredkgResult.Threshold >= 1 && puredkgResult.Threshold <= 1048576 && (forall i :: 0 <= i && i < len(puredkgResult.PublicKeyShares) ==> puredkgResult.PublicKeyShares[i] != nil)
+//@   requires puredkgResult != nil && puredkgResult.Threshold >= 1 && puredkgResult.Threshold <= 1048576 && len(puredkgResult.PublicKeyShares) <= 1048576 && (forall i :: 0 <= i && i < len(puredkgResult.PublicKeyShares) ==> puredkgResult.PublicKeyShares[i] != nil)
 //@   ensures ret0 != nil && fresh(ret0) && wfKG(ret0)
 //@   ensures ret0.Threshold == puredkgResult.Threshold && len(ret0.PublicKeyShares) == len(puredkgResult.PublicKeyShares)
 //@   ensures forall i :: 0 <= i && i < len(puredkgResult.PublicKeyShares) ==> ret0.PublicKeyShares[i] == puredkgResult.PublicKeyShares[i]
@@ -22,20 +24,37 @@ package epochkg
 //@
 //@ pred sharesLenOr0(kg, k) := ite(has(kg.SecretShares, k), len(kg.SecretShares[k]), 0)
 //@
+//@ // The key is combined from exactly Threshold shares of pairwise distinct senders, and the index list and
+//@ // the share list handed to the Lagrange combination are aligned element by element with that list.
+//@ func (*EpochKG).computeEpochSecretKey
+//@   requires epochkg != nil && len(shares) == epochkg.Threshold && len(shares) <= 1048576
+//@   requires forall i :: 0 <= i && i < len(shares) ==> (shares[i] != nil && shares[i].Share != nil && shares[i].Sender <= 1048576)
+//@   requires forall i, j :: 0 <= i && i < j && j < len(shares) ==> shares[i].Sender != shares[j].Sender
+//@   ensures ret1 == nil && ret0 != nil && fresh(ret0)
+//@   ensures len(keyperIndices) == len(shares) && len(epochSecretKeyShares) == len(shares)
+//@   ensures forall j :: 0 <= j && j < len(shares) ==> (keyperIndices[j] == shares[j].Sender && epochSecretKeyShares[j] == shares[j].Share)
+//@   invariant len(keyperIndices) == rangeindex + 1 && len(epochSecretKeyShares) == rangeindex + 1
+//@   invariant (fresh(keyperIndices) || len(keyperIndices) == 0) && (fresh(epochSecretKeyShares) || len(epochSecretKeyShares) == 0)
+//@   invariant forall j :: 0 <= j && j <= rangeindex ==> keyperIndices[j] == shares[j].Sender
+//@   invariant forall j :: 0 <= j && j <= rangeindex ==> epochSecretKeyShares[j] == shares[j].Share
+//@
 //@ // addEpochSecretKeyShare: caller has verified the share. A duplicate sender changes nothing; otherwise the
 //@ // share is appended, and exactly when that makes Threshold shares the key is derived and the pending
 //@ // list removed.
 //@ func (*EpochKG).addEpochSecretKeyShare
-//@   requires wfKG(epochkg) && share != nil && share.Share != nil
+//@   requires wfKG(epochkg) && share != nil && share.Share != nil && share.Sender < len(epochkg.PublicKeyShares)
 //@   assigns mapof(map[string][]*epochkg.EpochSecretKeyShare), mapof(map[string]*shcrypto.EpochSecretKey)
 //@   ensures kgBase(epochkg)
 //@   ensures kgKeysNonNil(epochkg)
 //@   ensures kgSharesNonNil(epochkg)
 //@   ensures kgBelowThreshold(epochkg)
+//@   ensures kgDistinct(epochkg)
+//@   ensures kgShareFields(epochkg)
 //@   ensures forall k Str :: (has(epochkg.SecretKeys, k) && !old(has(epochkg.SecretKeys, k))) ==> (k == idKey(share) && old(sharesLenOr0(epochkg, k)) + 1 == epochkg.Threshold)
 //@   ensures forall k Str :: old(has(epochkg.SecretKeys, k)) && k != idKey(share) ==> (has(epochkg.SecretKeys, k) && epochkg.SecretKeys[k] == old(epochkg.SecretKeys[k]))
 //@   ensures forall k Str :: k != idKey(share) ==> (has(epochkg.SecretShares, k) == old(has(epochkg.SecretShares, k)) && len(epochkg.SecretShares[k]) == old(len(epochkg.SecretShares[k])))
 //@   ensures ret0 != nil ==> (forall k Str :: has(epochkg.SecretKeys, k) == old(has(epochkg.SecretKeys, k)) && has(epochkg.SecretShares, k) == old(has(epochkg.SecretShares, k)) && len(epochkg.SecretShares[k]) == old(len(epochkg.SecretShares[k])))
+//@   invariant forall j :: 0 <= j && j <= rangeindex ==> shares[j].Sender != share.Sender
 //@   ensures ret0 == nil ==> sharesLenOr0(epochkg, idKey(share)) == ite(old(sharesLenOr0(epochkg, idKey(share))) + 1 == epochkg.Threshold, 0, old(sharesLenOr0(epochkg, idKey(share))) + 1)
 //@
 //@ // C01, per call and for every prior state satisfying the invariant (hence for every arrival order):
@@ -48,6 +67,8 @@ package epochkg
 //@   ensures kgKeysNonNil(epochkg)
 //@   ensures kgSharesNonNil(epochkg)
 //@   ensures kgBelowThreshold(epochkg)
+//@   ensures kgDistinct(epochkg)
+//@   ensures kgShareFields(epochkg)
 //@   ensures (!old(has(epochkg.SecretKeys, idKey(share))) && !shareValid(epochkg, share)) ==> ret0 != nil
 //@   ensures (old(has(epochkg.SecretKeys, idKey(share))) || !shareValid(epochkg, share)) ==> (forall k Str :: has(epochkg.SecretKeys, k) == old(has(epochkg.SecretKeys, k)) && has(epochkg.SecretShares, k) == old(has(epochkg.SecretShares, k)) && len(epochkg.SecretShares[k]) == old(len(epochkg.SecretShares[k])))
 //@   ensures forall k Str :: (has(epochkg.SecretKeys, k) && !old(has(epochkg.SecretKeys, k))) ==> (k == idKey(share) && shareValid(epochkg, share) && old(sharesLenOr0(epochkg, k)) + 1 == epochkg.Threshold)
